@@ -911,6 +911,8 @@ class Evaluator:
                 return Sym("str(?)", none=False, pytype=str)
             if t.py in (list, tuple) and len(args) == 1 and isinstance(args[0], (list, tuple)):
                 return list(args[0])
+            if t.py in (list, tuple) and len(args) == 1 and isinstance(args[0], EnumClass):
+                return [EnumMember(args[0], k) for k in args[0].members]
             if t.py in (dict, collections.OrderedDict) and not args and not kwargs:
                 return Const(t.py())
             if t.py in (isinstance.__class__,):
